@@ -304,7 +304,17 @@ fn mutate(ver: Ver, ch: &mut Choices, frame: &mut Vec<u8>, pkt: &Pkt) -> String 
     let v5 = ver == Ver::V5;
     let hdr = rc::fixed_header(frame).ok().flatten();
     let (first, rem, hl) = hdr.unwrap_or((frame[0], 0, 2.min(frame.len())));
-    match ch.choose(12) {
+    match ch.choose(13) {
+        12 => {
+            // the body cut after k bytes with a Remaining Length that says exactly k: a frame that is
+            // consistent on the outside and too short on the inside, at every possible length
+            let k = ch.choose(rem as u32 + 1) as usize;
+            let mut out = vec![first];
+            rc::put_varint(&mut out, k as u32);
+            out.extend_from_slice(&frame[hl..(hl + k).min(frame.len())]);
+            *frame = out;
+            format!("body cut to {k} of {rem} bytes, remaining length := {k}")
+        }
         0 => {
             // remaining length inflated / deflated
             let d = 1 + ch.choose(3) as usize;
